@@ -71,7 +71,8 @@ def handle (op : String) (j : Json) : Option (Except String Json) :=
       .ok (ofPairings (pairWithin (← labs (← J.field j "labels"))))
   | "c18.gen_partitions" => some do
       let l ← J.natList (← J.field j "labels")
-      .ok (J.ofList ofNatLists (genPartitions l))
+      let ms ← J.nat (J.fieldD j "min_size" (J.ofNat 4))
+      .ok (J.ofList ofNatLists (genPartitions l ms))
   | "c18.gen_pairings_between" => some do
       let a ← labs (← J.field j "a"); let b ← labs (← J.field j "b")
       .ok (ofPairings (genPairingsBetween a b))
